@@ -219,6 +219,47 @@ async fn pipe_case(run: usize, gen: &mut Gen, out: &mut Out) {
         "replies": replies.iter().map(rv_json).collect::<Vec<_>>(), "undecoded": left, "s": final_s}));
 }
 
+/// Size- and depth-dependent paths of the read loop: a frame far larger than the read buffer followed by a
+/// command split across reads, and more complete commands in one read than any per-read budget.
+async fn scale_case(run: usize, kind: &str, size: usize, split_at: usize, out: &mut Out) {
+    let shards = if run % 2 == 0 { 1 } else { 4 };
+    let state = ShardedActorState::with_config(ShardConfig::with_shards(shards));
+    let ping = || (json!({"op": "PING", "has": false, "v": []}), vec![b("PING")]);
+    let get = |k: &str| (json!({"op": "GET", "k": k}), vec![b("GET"), b(k)]);
+    let (cfg, cmds, segs): (ConnectionConfig, Vec<(Value, Argv)>, Vec<Vec<u8>>) = if kind == "large" {
+        let cfg = ConnectionConfig { max_buffer_size: 64 << 20, read_buffer_size: 8192, min_pipeline_buffer: 60, batch_threshold: 2 };
+        // the value is a placeholder in the abstract command (the keyspace is not compared for these cases)
+        let big: Vec<u8> = (0..size).map(|i| b'a' + (i % 26) as u8).collect();
+        let cmds = vec![(json!({"op": "SET", "k": "kbig", "v": [], "ex": -1, "px": -1, "nx": false, "xx": false, "get": false, "keepttl": false}), vec![b("SET"), b("kbig"), big]),
+                        ping(), get("k1"), ping()];
+        let mut wire = Vec::new();
+        for (_, a) in &cmds {
+            wire.extend(encode_argv(a));
+        }
+        let first = encode_argv(&cmds[0].1).len();
+        let cut = first + split_at; // inside the command that follows the large one
+        (cfg, cmds, vec![wire[..cut].to_vec(), wire[cut..].to_vec()])
+    } else {
+        let cfg = ConnectionConfig { max_buffer_size: 64 << 20, read_buffer_size: 1 << 20, min_pipeline_buffer: 60, batch_threshold: 2 };
+        let mut cmds: Vec<(Value, Argv)> = (0..size).map(|_| ping()).collect();
+        cmds.push(get("k1"));
+        let mut wire = Vec::new();
+        for (_, a) in &cmds {
+            wire.extend(encode_argv(a));
+        }
+        (cfg, cmds, vec![wire])
+    };
+    let nsegs = segs.len();
+    let nbytes: usize = segs.iter().map(|s| s.len()).sum();
+    let (replies, left) = run_conn(&state, &cfg, segs).await;
+    out.emit(&json!({"t": "pipe", "run": run, "shards": shards, "source": kind, "size": size, "nostate": true,
+        "cfg": {"min_pipeline_buffer": cfg.min_pipeline_buffer, "batch_threshold": cfg.batch_threshold, "read_buffer_size": cfg.read_buffer_size},
+        "cmds": cmds.iter().map(|(c, _)| c.clone()).collect::<Vec<_>>(),
+        "argv": cmds.iter().map(|(_, a)| a.iter().map(|x| if x.len() > 40 { format!("<{} bytes>", x.len()) } else { String::from_utf8_lossy(x).to_string() }).collect::<Vec<_>>()).collect::<Vec<_>>(),
+        "malformed": false, "junk": [], "bad_at": cmds.len(), "nsegs": nsegs, "nbytes": nbytes,
+        "replies": replies.iter().map(rv_json).collect::<Vec<_>>(), "undecoded": left, "s": []}));
+}
+
 /// TLC-generated scenario: frames (GET/SET/INCR/PING/BAD), reads [[n complete frames, fragment?]...]
 async fn replay_case(run: usize, scn: &Value, out: &mut Out) {
     let frames = scn["frames"].as_array().unwrap();
@@ -324,6 +365,34 @@ pub fn main(args: &[String]) -> i32 {
                 let r = catch(|| rt.block_on(replay_case(i + 1, scn, &mut out)));
                 if let Err(p) = r {
                     out.emit(&json!({"t": "pipe", "run": i + 1, "panic": p, "cmds": [], "replies": [], "malformed": false, "bad_at": 0, "undecoded": 0, "s": []}));
+                }
+            }
+        }
+        Some("scale") => {
+            let thorough = a.str("tier", "quick") == "thorough";
+            let mut run = 0;
+            let mut sizes: Vec<usize> = vec![40_000, (1 << 20) - 100, (1 << 20) + 100, 1_500_000];
+            if thorough {
+                sizes.extend([3 << 20, 9_000_000]);
+            }
+            for size in sizes {
+                for split_at in [1usize, 4, 9, 13] {
+                    run += 1;
+                    let r = catch(|| rt.block_on(scale_case(run, "large", size, split_at, &mut out)));
+                    if let Err(p) = r {
+                        out.emit(&json!({"t": "pipe", "run": run, "panic": p, "cmds": [], "replies": [], "malformed": false, "bad_at": 0, "undecoded": 0, "s": []}));
+                    }
+                }
+            }
+            let mut depths: Vec<usize> = vec![100, 585, 1000, 1024, 1025, 1500, 3000];
+            if thorough {
+                depths.extend([4096, 4097, 10000, 20000]);
+            }
+            for depth in depths {
+                run += 1;
+                let r = catch(|| rt.block_on(scale_case(run, "deep", depth, 0, &mut out)));
+                if let Err(p) = r {
+                    out.emit(&json!({"t": "pipe", "run": run, "panic": p, "cmds": [], "replies": [], "malformed": false, "bad_at": 0, "undecoded": 0, "s": []}));
                 }
             }
         }
